@@ -52,16 +52,20 @@ Proof.
   destruct (st_eqb (state s) CLOSED); [wp_prims; apply same_rcv_refl|].
   eapply wp_bind_rfr; [intros s' ev'; apply wp_when; intros _; [apply set_state_closed_rframes|apply same_rcv_refl]|].
   intros _ s1 ev1 F1. wp_prims.
-  eapply wp_bind_rfr.
-  { intros s' ev'. apply wp_when; intros _; [|apply same_rcv_refl].
-    rfr_call queue_fin_rframes. eapply wp_conseq; [apply attempt_send_rframes|]. cbv beta. intros; rfr_chain. }
-  intros _ s2 ev2 F2. wp_prims.
+  apply (wp_bind_spec _ _ _ _ (fun _ s' _ => same_rcv s s')).
+  { assert (Hq : wp (queue_fin_message;;; attempt_send sfFin now;;; ret true) s1 ev1 (fun _ s' _ => same_rcv s s')).
+    { rfr_call queue_fin_rframes. rfr_call attempt_send_rframes. wp_prims. rfr_chain. }
+    destruct (_ && _); [|wp_prims; rfr_chain]. destruct (last_seg _) as [g|]; [|exact Hq]. destruct (_ && _); [|exact Hq].
+    eapply wp_bind_rfr; [apply transmit_rframes|]. intros st s2 ev2 F2. destruct (negb (st =? 0)).
+    - rfr_call closedown_rframes. wp_prims. rfr_chain.
+    - wp_prims. rfr_chain. }
+  cbv beta. intros r0 s2 ev2 F2. clear F1. destruct (negb r0); [wp_prims; exact F2|]. wp_prims.
   apply (wp_bind_spec _ _ _ _ (fun _ s' _ => same_rcv s s')).
   { destruct (_ && _); [|wp_prims; rfr_chain]. destruct (slist s2); [apply wp_fault|].
     eapply wp_bind_rfr; [apply transmit_rframes|]. intros st s3 ev3 F3. destruct (negb (st =? 0)).
     - rfr_call closedown_rframes. wp_prims. rfr_chain.
     - wp_prims. destruct (dup_acks s3 >=? 3); rfr_chain. }
-  cbv beta. intros r1 s3 ev3 F3. clear F1 F2. destruct (negb r1); [wp_prims; exact F3|]. wp_prims.
+  cbv beta. intros r1 s3 ev3 F3. clear F2. destruct (negb r1); [wp_prims; exact F3|]. wp_prims.
   apply (wp_bind_spec _ _ _ _ (fun _ s' _ => same_rcv s s')).
   { destruct (_ && _); [|wp_prims; exact F3]. destruct (time_diff now (lastrecv s3) >=? 15000).
     - rfr_call closedown_rframes. wp_prims. rfr_chain.
